@@ -350,6 +350,18 @@ def generate(ch, profile):
                 closed.add(c["tag"])
         if ch.chance("wl", 0.15):
             ops.append({"op": "stop", "side": ch.choice("wl", ["A", "B"]), "t": ch.choice("wl", DTS)})
+        if ch.chance("wl", 0.35):
+            # late channels with automatically chosen ids, one from each side in (nearly) the same instant, after
+            # channels of either side's numbering have come and gone
+            closes = [i for i, o in enumerate(ops) if o["op"] == "close"]
+            pos = (ch.choice("wl", closes) + 1) if closes else len(ops)
+            first = ch.choice("wl", ["A", "B"])
+            late = []
+            for j, sd in enumerate([first, "B" if first == "A" else "A"]):
+                c = dict(gen_channel(ch, 90 + j, profile), tag="L%d" % j, side=sd, negotiated=False, id=None)
+                late.append(dict(c, op="create", t=ch.choice("wl", [0.0, 0.3, 3.0]) if j == 0 else ch.choice("wl", [0.0, 0.0, 0.001, 0.05])))
+                late.append({"op": "send", "tag": c["tag"], "side": sd, "kind": "str", "size": 10, "t": 0.0})
+            ops[pos:pos] = late
     return cfg, ops
 
 
@@ -865,6 +877,15 @@ class World:
                         self.violation("C13", "readyState:moved-backwards:%s>%s" % (seq[-1], st),
                                        "tag=%s side=%s" % (model.tag, side))
                     seq.append(st)
+                    if st == "closed" and chan.id is not None:
+                        # (diagnosis only) this end held the id until now: a channel of the other side's making that
+                        # already took the same id, and is not announced here yet, met the old channel on arrival
+                        for m2 in self.chans.values():
+                            o2 = m2.obj[m2.creator]
+                            if (m2 is not model and m2.creator != side and not m2.spec["negotiated"] and o2 is not None
+                                    and o2.id == chan.id and m2.dc_events == 0
+                                    and o2.readyState in ("connecting", "open")):
+                                m2.met_old_life = True
                     if ("C13" in self.props and st in ("closing", "closed") and model.close_called is None
                             and self.sctp[side].state == "connected" and not model.broken
                             and not self.stopped and self.phase != "teardown"):
@@ -1345,6 +1366,37 @@ class World:
             return [m for m in self.chans.values() if m.close_called is not None and not closed_both(m) and not m.broken
                     and not m.exempt]
 
+        # 0. channels opened in-band: the ids the two sides chose by themselves differ, and each such channel that is
+        #    still in use was announced to the other side (exactly once: duplicates are flagged when they happen)
+        inband = [m for m in self.chans.values() if not m.spec["negotiated"] and m.spec["id"] is None and not m.broken
+                  and not m.exempt and m.close_called is None and m.obj[m.creator] is not None
+                  and m.obj[m.creator].readyState in ("connecting", "open")]
+        await self.wait_until(lambda: all(m.dc_events >= 1 and m.obj[m.creator].readyState != "connecting" for m in inband),
+                              B_LIVENESS)
+        if not self.connected():
+            self.exempt["association_closed_during_lifecycle"] += 1
+            return
+        ids = {}
+        for m in inband:
+            o = m.obj[m.creator]
+            if o.readyState == "closed" or m.close_called is not None:
+                continue
+            if o.id is not None and o.id in ids and ids[o.id].creator != m.creator:
+                self.violation("C13", "automatically-chosen-ids-collide",
+                               "tags %s (side %s) and %s (side %s) both hold id %d" % (ids[o.id].tag, ids[o.id].creator,
+                                                                                      m.tag, m.creator, o.id))
+                m.broken = ids[o.id].broken = True
+                continue
+            ids[o.id] = m
+            if m.dc_events == 0 or o.readyState == "connecting":
+                self.violation("C13", "datachannel-event:never-announced" + (
+                                   ":id-taken-again-while-the-peer-still-held-the-old-channel"
+                                   if getattr(m, "met_old_life", False) else ""),
+                               "tag=%s creator=%s id=%r state=%s events on the other side: %d" % (
+                                   m.tag, m.creator, o.id, o.readyState, m.dc_events))
+                m.broken = True
+            else:
+                self.probes["inband_channel_announced"] += 1
         # close the remaining channels too, from a drawn side
         for model in list(self.chans.values()):
             if model.close_called is None and not model.broken:
